@@ -271,8 +271,9 @@ def _run(plan, ctx):
         ctx.probe("range_without_business_day")
     if ctx.judging("C12"):
         if got != want:
-            extra = [x for x in got if x not in set(want)][:3]
-            missing = [x for x in want if x not in set(got)][:3]
+            sw_, sg_ = set(want), set(got)
+            extra = [x for x in got if x not in sw_][:3]
+            missing = [x for x in want if x not in sg_][:3]
             orc = "clock_events_differ_from_calendar"
             if sorted(got) == sorted(want):
                 orc = "clock_event_order"
@@ -326,8 +327,9 @@ def _run(plan, ctx):
         ref = cal.schedule(kind, start, end, wd=plan["wd"], pre_market=pm)
         ctx.event("sched", kind, len(reb))
         if reb != ref:
-            extra = [iso(x) for x in reb if x not in set(ref)][:3]
-            missing = [iso(x) for x in ref if x not in set(reb)][:3]
+            sref_, sreb_ = set(ref), set(reb)
+            extra = [iso(x) for x in reb if x not in sref_][:3]
+            missing = [iso(x) for x in ref if x not in sreb_][:3]
             ctx.violate("C13", "schedule_differs_from_calendar",
                         {"kind": kind, "weekday": plan["wd"], "pre_market": pm, "start": iso(start), "end": iso(end),
                          "extra": extra, "missing": missing, "n_got": len(reb), "n_want": len(ref)},
